@@ -1,7 +1,3 @@
-use std::io::ErrorKind;
-#[verifier::external_type_specification]
-#[verifier::external_body]
-pub struct ExErrorKind(std::io::ErrorKind);
 // the header names the regions look up (string literals are `&str`; AsRef<str> for str is the identity,
 // which the uninterpreted asref_spec leaves open -- so the contracts talk about asref_spec of the literal)
 pub open spec fn lit_content_length() -> Seq<char> { asref_spec::<&str, str>(&"content-length")@ }
